@@ -6,8 +6,7 @@ usage: reseed_all.py [seed-id-prefix ...]      exit 0 = every seed still caught,
 import fcntl, json, os, subprocess, sys, time
 
 lockf = open("/dev/shm/mscript-verif-repo.lock", "a+")
-fcntl.flock(lockf, fcntl.LOCK_EX)
-os.environ["MSCRIPT_VERIF_LOCK_HELD"] = "1"
+os.environ["MSCRIPT_VERIF_LOCK_HELD"] = "1"      # the lock is taken per seed (below), so that a background sweep can build in between
 
 
 def sh(cmd):
@@ -22,10 +21,12 @@ for sid, checks in sorted(catchers.items()):
     if want and not any(sid.startswith(w) for w in want):
         continue
     patch = f"/verif/seeded/{sid}/patch.diff"
+    fcntl.flock(lockf, fcntl.LOCK_EX)
     r = sh(f"git -C /repo apply --whitespace=nowarn {patch}")
     if r.returncode != 0:
         print(f"{sid}: PATCH NO LONGER APPLIES ({r.stderr.strip()[:120]})", flush=True)
         escaped.append((sid, "patch"))
+        fcntl.flock(lockf, fcntl.LOCK_UN)
         continue
     try:
         for c in checks:
@@ -37,6 +38,7 @@ for sid, checks in sorted(catchers.items()):
                 escaped.append((sid, c))
     finally:
         sh("git -C /repo checkout -- . && git -C /repo clean -fdq")
+        fcntl.flock(lockf, fcntl.LOCK_UN)
 sh("git -C /verif checkout -- evidence")
 sh("cd /verif && python3 -c \"from mcheck.core import build; build.build(probe=True)\"")
 print(f"done in {time.time() - t0:.0f}s; escaped: {escaped}")
